@@ -410,6 +410,29 @@ def run_services(version: tuple[int, int], hello_name: str | None = None) -> dic
             one(allt, [values[t][min(pick, len(values[t]) - 1)] for t in allt], 9)
             one(list(reversed(allt)), [values[t][min(pick, len(values[t]) - 1)] for t in reversed(allt)], 9)
         one([], [], 3)
+        # values of a neighbouring Python type (bool is an int, an int is acceptable where a float is asked for): the call may refuse
+        # them (raising, nothing written), but if it writes a request the value sits in the field of the declared argument type
+        for t, v in ((T.INT, True), (T.INT, False), (T.FLOAT, 3), (T.BOOL, 1), (T.INT_ARRAY, [True, 2]), (T.FLOAT_ARRAY, [1, 2])):
+            svc = m.UserService(name="svc", key=11, args=[m.UserServiceArg(name="a0", type=t)])
+            frames, err, writes = s.call("execute_service", {"service": svc, "data": {"a0": v}})
+            calls += 1
+            if err is not None and not frames:
+                continue
+            desc = {"version": list(version), "types": [t.name], "values": repr(v)}
+            ok = len(frames) == 1 and frames[0][0] == "ExecuteServiceRequest" and len(frames[0][1].args) == 1
+            if ok:
+                a = frames[0][1].args[0]
+                set_fields = sorted(fd.name for fd, _ in a.ListFields())
+                want_field = field_for(t)
+                got_v = getattr(a, want_field)
+                ok = set_fields in ([want_field], []) and (list(got_v) == list(v) if isinstance(v, list) else got_v == v)
+            if not ok:
+                legacy = ":legacy<1.3" if version < (1, 3) and t == T.INT else ""
+                k = f"execute_service{legacy}:neighbour-type:{t.name}"
+                if k not in seen:
+                    seen.add(k)
+                    viol.append((k, f"execute_service argument of type {t.name} given {v!r} at API {version}: wrote {[str(f[1]).strip() for f in frames]} "
+                                 f"(error {err}); the value belongs in field {field_for(t)}", desc))
     finally:
         s.close()
     return {"method": "execute_service", "version": version, "calls": calls, "nontrivial": calls, "viol": viol}
@@ -465,7 +488,10 @@ def run_backpressure(noise: bool) -> dict[str, Any]:
                 sock.writable = True
                 if mode == "paused-raced":
                     s.w.loop.call_later(0, lambda: s.w.client.switch_command(key=99, state=True))
-                    exp99, _ = expected_request("switch_command", sp["switch_command"], (1, 10), 99, {}, {"state": True}, None)
+                    kw99 = {"key": 99, "state": True}
+                    rq99 = {k: v for k, v in kw99.items() if k in [r[0] for r in sp["switch_command"].get("req", [])]}
+                    exp99, _ = expected_request("switch_command", sp["switch_command"], (1, 10), 99, rq99,
+                                                {k: v for k, v in kw99.items() if k != "key" and k not in rq99}, None)
                     expected.append((sp["switch_command"]["msg"], exp99))
                     calls += 1
                 s.w.drain()
